@@ -209,11 +209,11 @@ PROPS["C11"] = dict(
 
 PROPS["C07"] = dict(
     level="proof",
-    technique="Lean 4 theorems about a model of check_outputs_with (iterator pipeline, SubKeyChecker table as insert list, view tags, additional keys) in an arbitrary lawful group: exact characterisation of the reported set (sound + complete), sender outputs recognised, position enters only through its varint; scenario-based three-way check with an independent sender",
-    level_text="C07_sound / C07_complete / C07_reported_iff: position i is reported, with key K and index idx, iff K is the main key or (when the main key addresses nothing there) the additional key at position i, the view tag matches when present, and P_i = Hs(enc(8•(v•K)) ‖ varint i)•G + subSpendPub idx for an in-range idx (last-insert-wins on equal spend keys); C07_sender_recognised / C07_sender_reported: outputs built by the by-the-book sender for the primary address or an in-range subaddress (main-key or per-output key, tagged or not, any position, tx key with added 8-torsion) are reported; C07_position_encoding; C07_errors; C07_apis_agree. Scenarios (wallet, ranges, per-output assignment primary/subaddress in or out of range/foreign/garbage, derivation, tag right/wrong/absent, version, RingCT type, positions beyond 128 and 16384) are built independently by the harness (dalek sender) and by the Lean spec; library scan = model = expected set. Session 4: the negative clauses are theorems (C07_wrong_tag_not_reported unconditional, C07_out_of_range_not_reported, C07_not_addressed_not_reported), C07_index_exact, C07_sender_tx_reported (sender's extra bytes composed with the scan), C07_check_* for SubKeyChecker::check.",
+    technique="Lean 4 theorems about a model of check_outputs_with (iterator pipeline, SubKeyChecker table as insert list, view tags, additional keys) in an arbitrary lawful group: exact characterisation of the reported set (sound + complete), sender outputs recognised, in the model the position enters as its LEB128 string, injectively; scenario-based three-way check with an independent sender (which is what ties the position encoding of the Rust code)",
+    level_text="C07_sound / C07_complete / C07_reported_iff: position i is reported, with key K and index idx, iff K is the main key or (when the main key addresses nothing there) the additional key at position i, the view tag matches when present, and P_i = Hs(enc(8•(v•K)) ‖ varint i)•G + subSpendPub idx for an in-range idx (last-insert-wins on equal spend keys); C07_sender_recognised / C07_sender_reported: outputs built by the by-the-book sender for the primary address or an in-range subaddress (main-key or per-output key, tagged or not, any position, tx key with added 8-torsion) are reported; C07_position_encoding (in the model the position enters as Spec.leb128 i for every i — rvnScalar_eq / viewTagOf_eq — and the hashed message determines the position; the Rust side of this is tied by the scenarios around positions 128 / 16384, not proved); C07_errors (incl. Err(NoTxPublicKey) iff no key sub-field). apis_agree / addressed_iff / check_eq are definitional unfoldings (helpers, not results; Rust side: APIS-DIFFER / CHECK-DIFFER in the harness). Scenarios (wallet, ranges, per-output assignment primary/subaddress in or out of range/foreign/garbage, derivation, tag right/wrong/absent, version, RingCT type, positions beyond 128 and 16384) are built independently by the harness (dalek sender) and by the Lean spec; library scan = model = expected set. Session 4: the negative clauses are theorems — C07_wrong_tag_not_reported unconditional; C07_out_of_range_not_reported only under explicit no-collision hypotheses (hno: no in-range index has the spend key of the target index, which is the hash assumption and implies that the index is out of range; hK: the other key addresses nothing), its content being addressed_spend_unique + the contrapositive of C07_reported_iff (= C07_not_addressed_not_reported); C07_index_exact under hinj (spend keys of the ranges pairwise different); both hypotheses have non-trivial witnesses (zmodOps1). C07_sender_tx_reported / _clear (sender's extra bytes composed with the scan; no .ok premise in the clear case), C07_witness_ed25519 (an Ok scan on Ed25519 that reports an output), C07_check_sound / _complete / _iff for SubKeyChecker::check. Indices are Nat in the model; meant for range bounds <= 2^32.",
     level_note=_CRYPTO_NOTE + " That a foreign key does not satisfy the equation by accident is cryptographic (sampled, not proved); the theorem is an exact characterisation so it needs no such assumption.",
     design_ref="DESIGN.md §6 C07",
-    rule="~40 (quick) / ~400 (thorough) scenarios; positions cross 128 and 16384 via filler outputs around real ones; missing/duplicate tx key fields, short additional-key lists, wrong tags/positions, out-of-range subaddresses, torsioned keys.",
+    rule="~40 (quick) / ~400 (thorough) scenarios; positions cross 128 and 16384 via filler outputs around real ones; missing/duplicate tx key fields, short / long additional-key lists (half, n-1, n+1 keys), wrong tags/positions, out-of-range subaddresses, torsioned keys; ranges 0..1 x 0..1 with primary-address outputs sent through additional keys; a tagged foreign first output before untagged owned ones; an additional-key output whose tag collides with the main-key tag (ground seed).",
     assumptions=["curve25519-dalek computes the same functions as Ref/Ed25519.lean (differential tie); that Ref/Ed25519.lean is the Ed25519 group law is proved (edOps_lawful)"],
     gen_items=["viewTagSalt", "mulFactor", "subaddrSalt", "CAP"],
 )
@@ -221,10 +221,10 @@ PROPS["C07"] = dict(
 PROPS["C08"] = dict(
     level="proof",
     technique="Lean 4 theorems: legacy and compact ecdh decode invert the by-the-book Monero sender encode for every amount < 2^64, mask and shared secret; any reported opening opens the on-chain commitment (for arbitrary, incl. corrupted, fields); clear amounts; differential check with an independent dalek encoder",
-    level_text="C08_legacy_roundtrip / C08_compact_roundtrip / C08_sender_roundtrip: decoding the sender's encoding returns exactly (a, y) resp. (a, derived mask) and passes the commitment check; C08_opening_sound: for ARBITRARY ecdh/commitment bytes a reported opening (a', y', C') satisfies y'•G + a'•H = C' = the decoded on-chain commitment, otherwise the scan errs (no third case, via C07_errors); C08_clear_amounts (v1 / coinbase / Null: a > 0 ↦ a, 0 ↦ unknown). The legacy theorem holds for the code after the fix commit (the pinned tree hashed the unreduced digest). Session 4: C08_scan_reports_sender_amount (end to end through the scan), C08_opening_sound_with (any checker, amount < 2^64), C08_open_commitment_sound, C08_H_is_monero / C08_H_decodes, and *_ed25519_permissive instances over a proved model of dalek's permissive point decoding (no decP / l / Keccak hypothesis left).",
+    level_text="C08_legacy_roundtrip / C08_compact_roundtrip / C08_sender_roundtrip: decoding the sender's encoding returns exactly (a, y) resp. (a, derived mask) and passes the commitment check; C08_opening_sound: for ARBITRARY ecdh/commitment bytes a reported opening (a', y', C') satisfies y'•G + a'•H = C' = the decoded on-chain commitment, otherwise the scan errs (no third case, via C07_errors); C08_clear_amounts (no RctSigBase — decoded version-1 or input-less transactions, C08_clear_amounts_decoded — or a base of type Null: a > 0 ↦ a, 0 ↦ unknown; proved is 'type Null ⇒ clear amount', NOT 'coinbase ⇒ clear amount': consensus requires Null of coinbase, the decoder and the scan do not look at the inputs, C08_gen_input_ringct_opened). The legacy theorem holds for the code after the fix commit (the pinned tree hashed the unreduced digest). Session 4: C08_scan_reports_sender_amount (end to end through the scan), C08_opening_sound_with (any checker; amount < 2^64 conditional on an 8-byte compact field, unconditional for decoded transactions: C08_opening_sound_decoded), C08_open_commitment_sound, C08_honest_scan_ok / _amounts, C08_sender_tx_amount (no .ok premise), C08_witness_ed25519 (all transaction-level hypotheses instantiated on Ed25519 with real Keccak), C08_H_is_monero / C08_H_decodes / C08_edH / C08_no_panic_commit, and *_ed25519_permissive instances over a model of dalek's permissive point decoding (tied to dalek differentially; proved to return curve points, to extend the strict decoder and to invert enc), instantiated with the point edH that Gen.pointH denotes: no decP / H / l / Keccak hypothesis left.",
     level_note=_CRYPTO_NOTE,
     design_ref="DESIGN.md §6 C08, §7 item 2",
-    rule="(amount, mask, secret) triples x 2 encodings incl. 0, 2^64-1 and every power of two ±1; corrupted ecdh / commitments (bit flips, non-canonical encodings); v1 / coinbase clear amounts.",
+    rule="(amount, mask, secret) triples x 2 encodings incl. 0, 2^64-1 and every power of two ±1; corrupted ecdh / commitments (bit flips, non-canonical encodings); commitments of two or three owned outputs exchanged or shifted by ±D with the sum preserved; legacy masks 0 / 1 / l-1 x amounts 0 / 1 / 2^64-1 through scans (identity commitment); v1 / input-less / type-Null clear amounts incl. 0 ↦ unknown.",
     assumptions=["2^64 <= l <= 2^256 and Keccak output >= 8 bytes (true for Ed25519 / Keccak-256)"],
     gen_items=["amountSalt", "maskSalt", "pointH", "mulFactor"],
 )
